@@ -626,6 +626,9 @@ func checkOptions(options Options) error {
 	if options.BytesPerSync > 16*1024*1024 {
 		return errors.New("BytesPerSync should not exceed 16MB")
 	}
+	if options.IndexType != index.BTree && options.IndexType != index.SkipList && options.IndexType != index.HashMap {
+		return errors.New("unsupported index type")
+	}
 	if options.ShardNum <= 0 {
 		return errors.New("ShardNum must be greater than 0")
 	}
